@@ -76,6 +76,8 @@ struct StdSpec {
     int variant = 0;		// 0 native entry point, 1 the same standard through vnacal_new_add_mapped_matrix*,
 				// 2 (through only) as a line with handles (0,1;1,0)
     double ab_scale = 1.0;	// common factor applied to simultaneous a and b readings
+    double rot = 0;		// the reflect actually connected is the (unknown) parameter's value turned by this angle: the same unknown handle
+				// stands for different physical standards in different calibrations
 };
 
 struct SessionSpec {
@@ -102,7 +104,7 @@ static inline Mat std_truth(const SessionSpec &ss, const StdSpec &st, const std:
 {
     int P = ss.P;
     Mat S(P, P);
-    auto val = [&](int k) { return param_truth(params[(size_t)st.params[(size_t)k]], f); };
+    auto val = [&](int k) { const ParamSpec &q = params[(size_t)st.params[(size_t)k]]; zc v = param_truth(q, f); if (st.rot != 0 && q.kind == 3 && !q.corr) v *= std::polar(1.0, st.rot); return v; };
     switch (st.kind) {
     case 0: S(st.ports[0] - 1, st.ports[0] - 1) = val(0); break;
     case 1: S(st.ports[0] - 1, st.ports[0] - 1) = val(0); S(st.ports[1] - 1, st.ports[1] - 1) = val(1); break;
